@@ -22,9 +22,9 @@ from vp_common import REPO, Atom, Ctx, line, run_driver
 
 PROP = 'C09'
 RULE = ('part 1: generated CSV files (3-5 columns, label anywhere, 1-3 batches), modes target-only / pairwise, focus sets, interaction '
-        'order 2, multi-value expansion, small caps; each ranked in-process under the baseline pool and under adversarial schedules '
+        'order 2, multi-value expansion, small caps, a duplicated (aliased) column in pairwise scope; each ranked in-process under the baseline pool and under adversarial schedules '
         '(random evaluation order, random hand-back order, re-seeded shuffle). part 2: the CLI in fresh processes on fixed generated data '
-        '(2 batches): configurations pairwise+focus, multi-value, interaction order 2, default, noise controls (plain, and with internal_hash wrapped from outside because the plain configuration cannot run); --num_threads in {1,2,4} '
+        '(2 batches): configurations pairwise+focus, multi-value, interaction order 2, default, sub-sampled estimator, capped selection, aliased column, noise controls (plain, and with internal_hash wrapped from outside because the plain configuration cannot run); --num_threads in {1,2,4} '
         '(thorough 1..16), PYTHONHASHSEED in {0,1,random}, repeated. Non-trivial = a comparison between two runs that differ in schedule / '
         'pool size / hash seed on a table with >= 6 rows; distinct = distinct (configuration, data, schedule pair).')
 ASSUMPTIONS = ['purity of scoring (same pair + same batch rows => same float) is what the theorem needs; it is observed (every comparison is bit-exact), not proved about CPython/numba',
@@ -37,7 +37,9 @@ ASSUMPTIONS = ['purity of scoring (same pair + same batch rows => same float) is
 # ---------------------------------------------------------------------------------------------
 # data
 
-def gen_data(rng: random.Random, nrows, feats, label_pos, multival=None):
+def gen_data(rng: random.Random, nrows, feats, label_pos, multival=None, alias=None):
+    """alias = (copy, source): column `copy` repeats column `source` cell by cell (duplicated / aliased columns are common in
+    real feeds; two pairs with the same contents in opposite orientations must still be scored independently)"""
     cols = list(feats)
     cols.insert(min(label_pos, len(cols)), 'label')
     lines = []
@@ -53,6 +55,8 @@ def gen_data(rng: random.Random, nrows, feats, label_pos, multival=None):
             else:
                 k = [6, 4, 30, 3, 9][j % 5]
                 vals.append(str((base * (j % 2) + y * rng.randrange(3) + rng.randrange(k)) % k))
+        if alias:
+            vals[cols.index(alias[0])] = vals[cols.index(alias[1])]
         lines.append(','.join(vals))
     return cols, ','.join(cols) + '\n' + '\n'.join(lines) + '\n'
 
@@ -62,7 +66,7 @@ def gen_case(rng: random.Random):
     feats = [f'f{i}' for i in range(nf)]
     B = rng.choice([150, 300, 500])
     nb = rng.choice([1, 2, 2, 3])
-    mode = rng.choice(['plain', 'plain', 'focus', 'focus', 'inter2', 'multival', 'smallcap'])
+    mode = rng.choice(['plain', 'plain', 'focus', 'focus', 'inter2', 'multival', 'smallcap', 'alias', 'alias'])
     c = {'dseed': rng.getrandbits(48), 'feats': feats, 'label_pos': rng.randrange(nf + 1), 'B': B, 'rows': nb * B + rng.choice([0, 0, 7]),
          'target_only': rng.random() < 0.4, 'mode': mode, 'sseed': rng.getrandbits(32)}
     if mode == 'focus':
@@ -72,6 +76,11 @@ def gen_case(rng: random.Random):
         c['multival'] = rng.choice(feats)
     if mode == 'smallcap':
         c['cap'] = rng.choice([1, 2, 3])
+    if mode == 'alias':
+        # a duplicated column, pairwise scope, asymmetric (default) heuristic: (a, b) and (b, a_copy) have the same two contents
+        # in opposite orientations
+        c['alias'] = rng.sample(feats, 2)
+        c['target_only'] = False
     return c
 
 
@@ -88,7 +97,7 @@ def case_args(c):
 
 
 def case_data(c):
-    return gen_data(random.Random(c['dseed']), c['rows'], c['feats'], c['label_pos'], c.get('multival'))
+    return gen_data(random.Random(c['dseed']), c['rows'], c['feats'], c['label_pos'], c.get('multival'), c.get('alias'))
 
 
 # ---------------------------------------------------------------------------------------------
@@ -200,8 +209,8 @@ def cli_configs(rng: random.Random, thorough):
     feats = ['f0', 'f1', 'f2', 'f3']
     cfgs = []
 
-    def data(multival=None, rows=2200):
-        return gen_data(random.Random(rng.getrandbits(48)), rows, feats, rng.randrange(5), multival)[1]
+    def data(multival=None, rows=2200, alias=None):
+        return gen_data(random.Random(rng.getrandbits(48)), rows, feats, rng.randrange(5), multival, alias)[1]
     cfgs.append({'name': 'focus-pairwise', 'data': data(), 'args': dict(feature_set_focus='f0,f1,f2,f3', target_ranking_only='False')})
     cfgs.append({'name': 'multivalue-pairwise', 'data': data('f2'), 'args': dict(explode_multivalue_features='f2', target_ranking_only='False')})
     cfgs.append({'name': 'interaction2', 'data': data(), 'args': dict(interaction_order=2, target_ranking_only='True')})
@@ -211,6 +220,8 @@ def cli_configs(rng: random.Random, thorough):
     # more candidate pairs than the per-batch cap (the capped selection must not depend on hash seeds / schedules)
     cfgs.append({'name': 'capped-pairwise', 'data': data(), 'args': dict(target_ranking_only='False', combination_number_upper_bound=6)})
     cfgs.append({'name': 'capped-interaction2', 'data': data(), 'args': dict(interaction_order=2, target_ranking_only='True', combination_number_upper_bound=4)})
+    # a duplicated column: the same two contents occur in both orientations among the pairs (content-keyed caches, per-worker state)
+    cfgs.append({'name': 'aliased-column-pairwise', 'data': data(alias=('f3', 'f1')), 'args': dict(target_ranking_only='False')})
     cfgs.append({'name': 'noise-controls', 'data': data(), 'args': dict(include_noise_baseline_features='True', target_ranking_only='True')})
     cfgs.append({'name': 'noise-controls-shimmed', 'data': cfgs[-1]['data'], 'args': dict(cfgs[-1]['args']), 'shim': True})
     for c in cfgs:
